@@ -92,7 +92,9 @@ pub enum DqOp { PushBack(Val), PushFront(Val), PopFront, PopBack }
 
 /// bulk-filled map/set: for i in 0..n insert (i*mul+add) as K [-> (i*vmul+vadd) as V]; then remove every `del_step`-th key
 #[derive(Clone, Debug, PartialEq)]
-pub struct Bulk { pub n: u64, pub mul: u64, pub add: u64, pub vmul: u64, pub vadd: u64, pub del_step: u64 }
+/// `keep_mod` > 0: afterwards every key whose index i has i % keep_mod != 0 is removed (a grown, then drained table: whole
+/// control groups without a full bucket); `reserve` > 0: the table is created with that capacity (sparse table)
+pub struct Bulk { pub n: u64, pub mul: u64, pub add: u64, pub vmul: u64, pub vadd: u64, pub del_step: u64, pub keep_mod: u64, pub reserve: u64 }
 
 #[derive(Clone, Debug)]
 pub struct StructDecl { pub name: String, pub tuple: bool, pub fields: Vec<(String, Ty)> }
@@ -429,15 +431,27 @@ impl<'a> Gen<'a> {
 
     fn map(&mut self, kt: &Ty, vt: &Ty, hash: bool) -> Val {
         let sizes: &[usize] = if hash { &[0, 1, 7, 8, 15, 16, 17, 100] } else { &[0, 1, 5, 11, 12, 40, 90, 200, 500] };
-        let n = *self.rng.pick(sizes);
+        let mut n = *self.rng.pick(sizes);
         let bulk_k = Self::bulk_ok(kt);
         let bulk_v = matches!(vt, Ty::Int(_) | Ty::Unit);
+        // sparse hash tables (1 in 4 when the types allow bulk filling): reserved-but-nearly-empty, or grown and drained
+        let (mut keep_mod, mut reserve) = (0u64, 0u64);
+        if hash && bulk_k.is_some() && bulk_v && self.rng.chance(1, 4) {
+            if self.rng.chance(1, 2) {
+                reserve = *self.rng.pick(&[40u64, 100, 500, 2000]);
+                n = *self.rng.pick(&[18usize, 19, 21, 25]);
+                keep_mod = *self.rng.pick(&[5u64, 7, 9, 13]);
+            } else {
+                n = *self.rng.pick(&[60usize, 100, 240, 600]);
+                keep_mod = *self.rng.pick(&[16u64, 37, 64, 101]);
+            }
+        }
         if n > 17 || (n > 8 && bulk_k.is_some() && bulk_v && self.rng.chance(1, 2)) {
             // big collections are bulk-filled; when the key type does not allow it fall back to the largest small size
             if let (Some(k), true) = (bulk_k, bulk_v) {
                 let mul = *self.rng.pick(&[1u64, 3, 7, 0x9E37]);
                 let add = self.rng.below(1000);
-                let b = Bulk { n: n as u64, mul, add, vmul: 5, vadd: self.rng.below(50), del_step: *self.rng.pick(&[0u64, 0, 2, 3, 10]) };
+                let b = Bulk { n: n as u64, mul, add, vmul: 5, vadd: self.rng.below(50), del_step: if keep_mod > 0 { 0 } else { *self.rng.pick(&[0u64, 0, 2, 3, 10]) }, keep_mod, reserve };
                 let mut content: Vec<(Val, Val)> = vec![];
                 for i in 0..b.n {
                     let key = Val::Int(k.from_bits((i as u128) * (b.mul as u128) + b.add as u128));
@@ -446,6 +460,12 @@ impl<'a> Gen<'a> {
                 }
                 if b.del_step > 0 {
                     for i in (0..b.n).step_by(b.del_step as usize) {
+                        let key = Val::Int(k.from_bits((i as u128) * (b.mul as u128) + b.add as u128));
+                        content.retain(|x| x.0 != key);
+                    }
+                }
+                if b.keep_mod > 0 {
+                    for i in (0..b.n).filter(|i| i % b.keep_mod != 0) {
                         let key = Val::Int(k.from_bits((i as u128) * (b.mul as u128) + b.add as u128));
                         content.retain(|x| x.0 != key);
                     }
@@ -549,7 +569,8 @@ pub fn expr(d: &Decls, t: &Ty, v: &Val) -> String {
             s + "d }"
         }
         (Ty::HashMap(kt, vt), Val::Map { ins, del, bulk, .. }) | (Ty::BTreeMap(kt, vt), Val::Map { ins, del, bulk, .. }) => {
-            let ctor = if matches!(t, Ty::HashMap(..)) { "HashMap::default()" } else { "BTreeMap::new()" };
+            let reserve = bulk.as_ref().map(|b| b.reserve).unwrap_or(0);
+            let ctor = if matches!(t, Ty::HashMap(..)) { if reserve > 0 { format!("HashMap::with_capacity_and_hasher({reserve}, Default::default())") } else { "HashMap::default()".to_string() } } else { "BTreeMap::new()".to_string() };
             let mut s = format!("{{ let mut m: {} = {ctor}; ", t.src_name(d));
             if let Some(b) = bulk {
                 let vexpr = match &**vt { Ty::Int(vk) => format!("(i * {} + {}) as {}", b.vmul, b.vadd, vk.name()), _ => "()".into() };
@@ -557,18 +578,25 @@ pub fn expr(d: &Decls, t: &Ty, v: &Val) -> String {
                 if b.del_step > 0 {
                     s += &format!("for i in (0..{}u128).step_by({}) {{ m.remove(&((i * {} + {}) as {})); }} ", b.n, b.del_step, b.mul, b.add, kt.src_name(d));
                 }
+                if b.keep_mod > 0 {
+                    s += &format!("for i in (0..{}u128).filter(|i| i % {} != 0) {{ m.remove(&((i * {} + {}) as {})); }} ", b.n, b.keep_mod, b.mul, b.add, kt.src_name(d));
+                }
             }
             for (k, v) in ins { s += &format!("m.insert({}, {}); ", expr(d, kt, k), expr(d, vt, v)); }
             for k in del { s += &format!("m.remove(&{}); ", expr(d, kt, k)); }
             s + "m }"
         }
         (Ty::HashSet(kt), Val::Set { ins, del, bulk, .. }) | (Ty::BTreeSet(kt), Val::Set { ins, del, bulk, .. }) => {
-            let ctor = if matches!(t, Ty::HashSet(..)) { "HashSet::default()" } else { "BTreeSet::new()" };
+            let reserve = bulk.as_ref().map(|b| b.reserve).unwrap_or(0);
+            let ctor = if matches!(t, Ty::HashSet(..)) { if reserve > 0 { format!("HashSet::with_capacity_and_hasher({reserve}, Default::default())") } else { "HashSet::default()".to_string() } } else { "BTreeSet::new()".to_string() };
             let mut s = format!("{{ let mut m: {} = {ctor}; ", t.src_name(d));
             if let Some(b) = bulk {
                 s += &format!("for i in 0..{}u128 {{ m.insert((i * {} + {}) as {}); }} ", b.n, b.mul, b.add, kt.src_name(d));
                 if b.del_step > 0 {
                     s += &format!("for i in (0..{}u128).step_by({}) {{ m.remove(&((i * {} + {}) as {})); }} ", b.n, b.del_step, b.mul, b.add, kt.src_name(d));
+                }
+                if b.keep_mod > 0 {
+                    s += &format!("for i in (0..{}u128).filter(|i| i % {} != 0) {{ m.remove(&((i * {} + {}) as {})); }} ", b.n, b.keep_mod, b.mul, b.add, kt.src_name(d));
                 }
             }
             for k in ins { s += &format!("m.insert({}); ", expr(d, kt, k)); }
